@@ -229,6 +229,9 @@ type Schema struct {
 	ExtRoots map[string]string `json:"ext_roots,omitempty"`
 	// ExtRootDirs: directive uses an implicit schema (Roots == nil) is given with 'extend schema @d {...}'
 	ExtRootDirs []DirUse `json:"ext_root_dirs,omitempty"`
+	// RootDescs: descriptions of the operation fields of the schema block (explicit, or the extension
+	// of an implied one), by operation
+	RootDescs map[string]string `json:"root_descs,omitempty"`
 }
 
 func (s *Schema) Type(name string) *TypeDef {
@@ -539,6 +542,7 @@ func (s *Schema) RootsSDL() string {
 	b.WriteString("schema" + dirsSDL(s.RootDirs) + " {\n")
 	for _, op := range []string{"query", "mutation", "subscription"} {
 		if n := s.Roots[op]; n != "" {
+			b.WriteString(descSDL(s.RootDescs[op], "  ", SDLOpts{}))
 			b.WriteString("  " + op + ": " + n + "\n")
 		}
 	}
@@ -569,6 +573,7 @@ func (s *Schema) ExtRootsSDL() string {
 	b.WriteString("extend schema" + dirsSDL(s.ExtRootDirs) + " {\n")
 	for _, op := range []string{"query", "mutation", "subscription"} {
 		if n := s.ExtRoots[op]; n != "" {
+			b.WriteString(descSDL(s.RootDescs[op], "  ", SDLOpts{}))
 			b.WriteString("  " + op + ": " + n + "\n")
 		}
 	}
